@@ -7,7 +7,11 @@
   DEFAULT_SWEEP, DEFAULT_NITER) and the smoother registry (names of the `setup_*` functions), read from
   the AST of the working-tree file;
 * keyword defaults of MultilevelSolver.solve / aspreconditioner / coarse_grid_solver and of every
-  pyamg.krylov solver (AST), as (name, default-source) pairs.
+  pyamg.krylov solver (AST), as (name, default-source) pairs;
+* (harness/py2lean.py, Generated/PyLogic.lean) executable Lean definitions translated from the AST of the
+  pure-Python decision logic: `levelize_*`, the `unpack_arg` helpers, `_same_parameters` and the
+  `symmetric_smoothing` slice of `change_smoothers`; theorems in Props/C04.lean and Props/C05.lean are about
+  these generated definitions.
 
 `Model/Facts.lean` holds the same tables as the models assume them (pinned, committed; written with
 `translate.py --pin`).  `Props/Cxx.lean` proves `Facts.t = Generated.t` by `decide`, so a silently
@@ -143,6 +147,10 @@ def _write(p, text):
 def regenerate():
     f = facts()
     _write(GEN / 'Facts.lean', render('Generated', f, f'GENERATED by harness/translate.py from the working tree of the repository on every run. Do not edit.'))
+    # pure-Python decision logic (option handling of the hierarchy loop, symmetric-smoothing flag) -> executable Lean
+    # definitions, Generated/PyLogic.lean (see py2lean.py)
+    import py2lean
+    py2lean.generate()
 
 
 def pin():
